@@ -52,13 +52,31 @@ ASSUMPTIONS = [
 
 PART_LINES = 60000
 
+# table kinds whose counts / offsets must have been faulted in every run (the repository fonts carry them)
+REQUIRED_TABLE_KINDS = {
+    "fvar": ("count", "offset"), "avar": ("count",), "gvar": ("count", "offset", "index"), "HVAR": ("count", "offset", "index"),
+    "MVAR": ("count", "offset", "index"), "STAT": ("count", "offset", "index"), "CFF ": ("count", "offset", "index"),
+    "CFF2": ("count", "offset", "index"), "glyf": ("count", "index"), "loca": ("offset",), "cmap": ("count", "offset"),
+    "name": ("count", "offset"), "post": ("count",), "hhea": ("count",), "maxp": ("count",), "GSUB": ("count", "offset", "index"),
+    "GPOS": ("count", "offset", "index"), "GDEF": ("offset",), "kern": ("count",), "sbix": ("count", "offset"),
+    "EBLC": ("count", "offset"), "SVG ": ("count", "offset"),
+}
+# kinds of field on which the classes "self" / "parent" must have been instantiated
+REQUIRED_REF_KINDS = [r"^glyf:index:glyph\.comp\.glyphIndex$", r"^CFF :index:lsubr\.callsubr\.arg$", r"^CFF :index:gsubr\.callgsubr\.arg$",
+                      r"^CFF2:index:lsubr\.callsubr\.arg$", r"^GSUB:index:lookup\.ctx.*lookupListIndex$", r"^dir:offset:rec\.offset$",
+                      r"^CFF :offset:top\.op17\.arg$"]
+
 
 def _site_key(site):
     return "Panic|" + site
 
 
 def _norm_field(name):
-    return re.sub(r"\[[^\]]*\]", "", name)
+    """as norm_name of c01_faults.rs"""
+    t = re.sub(r"\[[^\]]*\]", "", name)
+    for kw in ("comp", "rec", "range", "axis", "arg", "byte", "coord", "word", "sub", "Offset", "rule", "peak", "start", "end", "subr", "gsubr", "lsubr"):
+        t = re.sub(re.escape(kw) + r"\d+", kw, t)
+    return t
 
 
 def _dead_site(msg):
@@ -173,6 +191,9 @@ def _count(files, out):
     kinds = collections.Counter()
     levels = collections.Counter()
     per_group = collections.defaultdict(collections.Counter)
+    table_role = collections.defaultdict(collections.Counter)    # table kind -> role -> overwrites of table-level fields
+    ref_kinds = collections.Counter()                            # reference-class overwrites per kind of field
+    died = collections.defaultdict(collections.Counter)
     ok_to_err = collections.Counter()
     more_err = collections.Counter()
     nf = collections.Counter()
@@ -187,6 +208,8 @@ def _count(files, out):
                 a, o = e["a"], e["o"]
                 g = a["g"]
                 per_group[g][o["oc"]] += 1
+                if o["oc"] not in ("Ok", "Err", "Panic"):
+                    died[g][o["oc"]] += 1
                 if a["base"][0] == "Ok" and o["oc"] == "Err":
                     ok_to_err[g] += 1
                 if a["base"][0] != "" and o["oc"] in ("Ok", "Err") and o["err"] > a["base"][2]:
@@ -206,6 +229,10 @@ def _count(files, out):
                             roles[ft[1]] += 1
                         if ft[2]:
                             vcs[ft[2]] += 1
+                        if ft[0] == "Overwrite" and ft[3] == "table" and ft[5] != "hook":
+                            table_role[ft[4]][ft[1]] += 1
+                        if ft[2] in ("self", "parent") and ft[9] != "":
+                            ref_kinds["%s:%s:%s" % ("dir" if ft[3] == "dir" else ft[4], ft[1], _norm_field(ft[5]))] += 1
                     if noticed and g != "container" and a["nf"] >= 1 and a["nf"] not in [x["nf"] for x in samples]:
                         samples.append({"nf": a["nf"], "input": a["input"], "faults": a["faults"], "group": g, "outcome": o["oc"],
                                         "calls_ok": o["ok"], "calls_err": o["err"], "baseline": a["base"]})
@@ -221,11 +248,14 @@ def _count(files, out):
         "ok_to_err_per_group": dict(ok_to_err),
         "more_failing_calls_than_on_intact_per_group": dict(more_err),
         "flaky_events": flaky,
+        "overwrites_per_table_kind_and_role": {t: dict(c) for t, c in sorted(table_role.items())},
+        "reference_class_overwrites_per_field_kind": dict(sorted(ref_kinds.items())),
+        "process_deaths_per_group": {g: dict(c) for g, c in died.items()},
         "samples": samples,
     })
 
 
-def _planted(base, any_ev):
+def _planted(base, any_ev, died_events):
     out = []
 
     def cp(src, name, i):
@@ -240,6 +270,11 @@ def _planted(base, any_ev):
     e["o"].update({"oc": "Timeout"})
     out.append(e)
     expect = {"selftest-panic": "Unsafe.Panic", "selftest-timeout": "Unsafe.Timeout"}
+    # the events the supervisor writes for a dead process (written by the same code: c01_faults died-events), every
+    # death class in the container group and in another group: each must be rejected as Unsafe.<class>
+    for e in died_events:
+        out.append(e)
+        expect[e["case"]] = "Unsafe." + e["o"]["oc"]
     if base is not None:
         e = cp(base, "table", 2)
         e["o"]["facts"]["tabs"][0][2] = "Err"
@@ -309,7 +344,11 @@ def run(ctx):
     if base is None:
         # nothing loads (a tree broken that badly is reported by the judge below): only the outcome clauses are planted
         ctx.note("no loadable container event in the first part: container clauses of the self-check skipped")
-    planted, expect = _planted(base, any_ev)
+    died_events = [json.loads(l) for l in subprocess.run([binp, "died-events"], stdout=subprocess.PIPE, text=True, check=True,
+                                                        env=dict(os.environ, VERIF_REPO=vlib.REPO)).stdout.splitlines() if l.startswith("{")]
+    if len(died_events) != 8 or not any(e["ev"] == "Container" for e in died_events):
+        raise vlib.ToolError("c01_faults died-events printed %d events" % len(died_events))
+    planted, expect = _planted(base, any_ev, died_events)
     pp = ctx.path("planted.ndjson")
     vlib.write_ndjson(pp, planted + [any_ev])
     all_parts = parts + [rtrace, pp]
@@ -336,6 +375,12 @@ def run(ctx):
     for name, clause in expect.items():
         if clause not in seen.get(name, []):
             raise vlib.ToolError("binding self-check failed: planted event %s was not rejected for %s (got %s)" % (name, clause, seen.get(name)))
+    for m in mism:
+        if m["case"].startswith("selftest-died-"):
+            ks = _keys(m)
+            want = "%s|%s|wOF2" % (m["o"]["oc"], m["a"]["g"])
+            if ks != [want]:
+                raise vlib.ToolError("binding self-check failed: planted dead-process event %s gives keys %s, expected %s" % (m["case"], ks, want))
     tool = [k for k in by_key if k.startswith("TOOL|")]
     if tool:
         raise vlib.ToolError("events outside the alphabet of FaultModel / malformed views: %s %s" % (tool, vlib.short(by_key[tool[0]][1], 500)))
@@ -350,8 +395,28 @@ def run(ctx):
     # vacuity (a tool error only when nothing else is reported: on a tree broken so badly that nothing loads the
     # violations above are the message)
     missing = [r for r in ("count", "offset", "length", "version", "index", "value") if not counters["faults_per_role"].get(r)]
-    missing += [v for v in ("zero", "one", "max", "max-1", "hi7f", "hi80", "inc", "dec", "dbl", "filelen", "tablelen")
+    missing += [v for v in ("zero", "one", "max", "max-1", "hi7f", "hi80", "inc", "dec", "dbl", "filelen", "tablelen", "self", "parent")
                 if not counters["faults_per_value_class"].get(v)]
+    # per table kind x role: a table kind in which the walk finds count / offset / index / length / version fields but
+    # none of them was overwritten in this run; the table kinds the brief names must be there at all
+    got_tr = counters["overwrites_per_table_kind_and_role"]
+    for t, roles in sorted(rep.get("struct_fields_per_table_role", {}).items()):
+        for r in ("count", "offset", "index", "length", "version"):
+            if roles.get(r) and not got_tr.get(t, {}).get(r):
+                missing.append("table %s role %s" % (t, r))
+    for t, rs in REQUIRED_TABLE_KINDS.items():
+        for r in rs:
+            if not got_tr.get(t, {}).get(r):
+                missing.append("table %s role %s (required)" % (t, r))
+    # reference classes: every kind of field that carries a reference was overwritten with it; the kinds that close
+    # the cycles recursion limits exist for must be among them
+    got_ref = counters["reference_class_overwrites_per_field_kind"]
+    for k in sorted(rep.get("ref_fields", {})):
+        if not got_ref.get(k):
+            missing.append("reference class on " + k)
+    for pat in REQUIRED_REF_KINDS:
+        if not any(re.search(pat, k) for k in got_ref):
+            missing.append("reference class on a field matching " + pat)
     missing += [k for k in ("Overwrite", "Truncate", "RemoveTable", "ShrinkLength", "SwapTables") if not counters["faults_per_kind"].get(k)]
     vac = None
     if missing:
@@ -387,7 +452,9 @@ def run(ctx):
         "non_conforming_events": len(mism) - len(seen),
         "distinct_violation_keys": len(by_key),
         "groups_where_no_fault_made_more_calls_fail": sorted(silent),
-        "binding_selfcheck": "%d corrupted copies of recorded events rejected, each for its own clause; " % len(planted) +
+        "binding_selfcheck": "%d planted events rejected, each for its own clause (corrupted copies of recorded events; the dead-process "
+                             "events of the supervisor for OOM / StackOverflow / Timeout / Abort in the container group and in another "
+                             "group, each with its stable key); " % len(planted) +
                              "value classes, fault application and view cutting replayed against MC_FaultModel with 0 mismatches",
         "exhaustive": False,
         "explanation": "fault sequences are enumerated exhaustively at the abstract level (kind, role, value class, level) up to "
@@ -396,7 +463,7 @@ def run(ctx):
     }
     for k in ("fault_sequences_run", "inputs", "faults_per_role", "faults_per_value_class", "faults_per_kind", "faults_per_level",
               "sequences_per_length", "outcomes_per_group", "ok_to_err_per_group", "more_failing_calls_than_on_intact_per_group",
-              "flaky_events"):
+              "flaky_events", "overwrites_per_table_kind_and_role", "reference_class_overwrites_per_field_kind", "process_deaths_per_group"):
         coverage[k] = counters[k]
     vlib.finish(ctx, LEVEL, coverage, violations, ASSUMPTIONS)
 
